@@ -110,7 +110,7 @@ PlmnSupportItem(pl) == [PLMNIdentity |-> [Value |-> pl], SliceSupportList |-> [L
 NgSetupResponse ==
    NgapPdu(1, Proc.NGSetup, 0, "NGSetupResponse",
       << IeR(1, 0, "AMFName", [Value |-> <<65, 77, 70>>]),
-         IeR(96, 0, "ServedGUAMIList", [List |-> (IF OtherFirst THEN << [GUAMI |-> [GuamiV EXCEPT !.PLMNIdentity = [Value |-> OtherPlmn]]] >> ELSE <<>>)
+         IeR(96, 0, "ServedGUAMIList", [List |-> (IF OtherFirst THEN << [GUAMI |-> [GuamiV EXCEPT !.PLMNIdentity = [Value |-> OtherPlmn]], BackupAMFName |-> [Value |-> <<65, 77, 70, 45, 50>>]] >> ELSE <<>>)
                                                   \o << [GUAMI |-> GuamiV] >>]),
          IeR(86, 1, "RelativeAMFCapacity", [Value |-> [n |-> 255]]),
          IeR(80, 0, "PLMNSupportList", [List |-> (IF OtherFirst THEN << PlmnSupportItem(OtherPlmn) >> ELSE <<>>) \o << PlmnSupportItem(CfgPlmn) >>]) >>)
